@@ -692,25 +692,32 @@ pub open spec fn withdraw_pred<C: ContentAddrStore>(s: UnsealedState<C>) -> spec
 pub open spec fn is_builtin_key(k: PoolKey, t902: bool) -> bool { k == pk_mel_sym() || k == pk_mel_erg() || (t902 && k == pk_erg_sym()) }
 /// liquidity of pool k that can be redeemed: everything for an ordinary pool, all but one unit for a built-in pool (whose first 10^9 belong to nobody)
 pub open spec fn liq_avail(pools: Map<PoolKey, PoolState>, k: PoolKey, t902: bool) -> int { if pools.contains_key(k) { pools[k].liqs - (if is_builtin_key(k, t902) { 1int } else { 0int }) } else { 0 } }
-/// C16 backing invariant + freshness, as the envelope of the withdrawal phase (a predicate of the block's transaction set, the pools' liquidity and the coin ids in use):
-/// whichever of the block's one-output transactions name pool k, their first-output values add up to no more than the pool's redeemable liquidity; no such transaction has a coin under index 1
+/// envelope of the withdrawal phase (a predicate of the block's transaction set and the coin ids in use): whichever of the block's one-output
+/// transactions name pool k, their first-output values fit in u128 together; no such transaction has a coin under index 1 yet.
+/// (It used to contain the C16 backing invariant -- requests never exceed the pool's liquidity -- which the code now checks itself.)
 pub open spec fn wd_env(txs: Map<TxHash, Transaction>, pools: Map<PoolKey, PoolState>, c: IMap<CoinID, CoinDataHeight>, t902: bool) -> bool {
     &&& forall|reqs: Seq<Transaction>, k: PoolKey| #[trigger] reqs_from(txs, reqs) && (forall|i: int| 0 <= i < reqs.len() ==> (#[trigger] reqs[i]).outputs@.len() == 1 && spec_req_key(reqs[i].data@) == Some(k) && reqs[i].kind == TxKind::LiqWithdraw)
-            ==> true_sum(out_vals(reqs, 0), reqs.len() as int) <= #[trigger] liq_avail(pools, k, t902)
+            ==> #[trigger] wd_fit(reqs, k)
     &&& forall|h: TxHash| #[trigger] txs.contains_key(h) && txs[h].outputs@.len() == 1 ==> !c.contains_key(cid(txs[h], 1))
 }
+/// u128 envelope: the liquidity named by the block's withdrawal requests for one pool adds up to less than 2^128 (the named pool is a tag)
+pub open spec fn wd_fit(reqs: Seq<Transaction>, k: PoolKey) -> bool { true_sum(out_vals(reqs, 0), reqs.len() as int) <= u128::MAX }
+/// the guard of process_withdrawals_for_single_pool (fix: over-redeeming requests are left unsettled): the requests of a block name more
+/// liquidity than the pool records, or all the liquidity of a built-in pool
+pub open spec fn wd_refused(p: PoolState, q: int, builtin: bool) -> bool { q > p.liqs || (builtin && q == p.liqs) }
+pub open spec fn wd_settles(pools0: Map<PoolKey, PoolState>, reqs: Seq<Transaction>, k: PoolKey, t902: bool) -> bool { pools0.contains_key(k) && !wd_refused(pools0[k], wd_q(reqs, k), is_builtin_key(k, t902)) }
+/// the pools whose withdrawal requests of this block are settled
+pub open spec fn wd_settled_set(reqs: Seq<Transaction>, pools0: Map<PoolKey, PoolState>, t902: bool) -> ISet<PoolKey> { ISet::new(|k: PoolKey| mentions(reqs, k) && wd_settles(pools0, reqs, k, t902)) }
+pub open spec fn wdone_set(pools: Seq<PoolKey>, i: int, reqs: Seq<Transaction>, pools0: Map<PoolKey, PoolState>, t902: bool) -> ISet<PoolKey> { ISet::new(|k: PoolKey| (exists|j: int| 0 <= j < i && pools[j] == k) && wd_settles(pools0, reqs, k, t902)) }
 /// pools only gain liquidity and never disappear; coin ids only disappear
 pub open spec fn liqs_mono(pools0: Map<PoolKey, PoolState>, pools1: Map<PoolKey, PoolState>) -> bool { forall|k: PoolKey| #[trigger] pools0.contains_key(k) ==> pools1.contains_key(k) && pools1[k].liqs >= pools0[k].liqs }
 pub open spec fn ids_sub(c0: IMap<CoinID, CoinDataHeight>, c1: IMap<CoinID, CoinDataHeight>) -> bool { forall|id: CoinID| #[trigger] c1.contains_key(id) ==> c0.contains_key(id) }
 pub proof fn lemma_wd_env_mono(txs: Map<TxHash, Transaction>, pools0: Map<PoolKey, PoolState>, c0: IMap<CoinID, CoinDataHeight>, pools1: Map<PoolKey, PoolState>, c1: IMap<CoinID, CoinDataHeight>, t902: bool)
-    requires wd_env(txs, pools0, c0, t902), liqs_mono(pools0, pools1), ids_sub(c0, c1), forall|k: PoolKey| #[trigger] pools1.contains_key(k) ==> pools1[k].liqs >= (if is_builtin_key(k, t902) { 1int } else { 0int })
+    requires wd_env(txs, pools0, c0, t902), ids_sub(c0, c1)
     ensures wd_env(txs, pools1, c1, t902)
 {
     assert forall|reqs: Seq<Transaction>, k: PoolKey| #[trigger] reqs_from(txs, reqs) && (forall|i: int| 0 <= i < reqs.len() ==> (#[trigger] reqs[i]).outputs@.len() == 1 && spec_req_key(reqs[i].data@) == Some(k) && reqs[i].kind == TxKind::LiqWithdraw)
-            implies true_sum(out_vals(reqs, 0), reqs.len() as int) <= #[trigger] liq_avail(pools1, k, t902) by {
-        assert(true_sum(out_vals(reqs, 0), reqs.len() as int) <= liq_avail(pools0, k, t902));
-        if pools0.contains_key(k) { assert(pools1.contains_key(k)); } else if pools1.contains_key(k) { }
-    }
+            implies #[trigger] wd_fit(reqs, k) by { }
 }
 pub open spec fn wd_reqs_ok(pools0: Map<PoolKey, PoolState>, c0: IMap<CoinID, CoinDataHeight>, reqs: Seq<Transaction>) -> bool {
     &&& reqs_distinct(reqs)
@@ -751,7 +758,7 @@ pub proof fn lemma_selected_withdrawals<C: ContentAddrStore>(s: UnsealedState<C>
 /// the requests of pool k satisfy the single-pool preconditions (under the phase envelope)
 pub proof fn lemma_pool_wds_pre(txs: Map<TxHash, Transaction>, pools0: Map<PoolKey, PoolState>, c0: IMap<CoinID, CoinDataHeight>, reqs: Seq<Transaction>, k: PoolKey, t902: bool)
     requires wd_reqs_ok(pools0, c0, reqs), mentions(reqs, k), wd_env(txs, pools0, c0, t902), reqs_from(txs, pool_reqs(reqs, k))
-    ensures withdrawals_pre(pool_reqs(reqs, k), k), pools0.contains_key(k), wd_q(reqs, k) <= liq_avail(pools0, k, t902),
+    ensures withdrawals_pre(pool_reqs(reqs, k), k), pools0.contains_key(k), wd_q(reqs, k) <= u128::MAX,
             forall|i: int| 0 <= i < pool_reqs(reqs, k).len() ==> !c0.contains_key(cid(#[trigger] pool_reqs(reqs, k)[i], 1))
 {
     let rk = pool_reqs(reqs, k);
@@ -764,7 +771,7 @@ pub proof fn lemma_pool_wds_pre(txs: Map<TxHash, Transaction>, pools0: Map<PoolK
     }
     let j0 = choose|j: int| 0 <= j < reqs.len() && spec_req_key((#[trigger] reqs[j]).data@) == Some(k);
     assert(swap_key(reqs[j0]) == k); assert(for_pool(k)(reqs[j0])); assert(reqs.contains(reqs[j0])); assert(rk.contains(reqs[j0]));
-    assert(true_sum(out_vals(rk, 0), rk.len() as int) <= liq_avail(pools0, k, t902));
+    assert(wd_fit(rk, k));
 }
 pub proof fn lemma_wds_done_step(pools0: Map<PoolKey, PoolState>, c0: IMap<CoinID, CoinDataHeight>, height: BlockHeight, reqs: Seq<Transaction>, done: ISet<PoolKey>,
         wl: spec_fn(PoolKey) -> int, wr: spec_fn(PoolKey) -> int, pb: Map<PoolKey, PoolState>, cb: IMap<CoinID, CoinDataHeight>, k: PoolKey, p1: Map<PoolKey, PoolState>, c1: IMap<CoinID, CoinDataHeight>, l: int, r: int)
@@ -888,12 +895,15 @@ pub proof fn lemma_swaps_young(pools0: Map<PoolKey, PoolState>, c0: IMap<CoinID,
     }
 }
 pub proof fn lemma_wds_young(pools0: Map<PoolKey, PoolState>, c0: IMap<CoinID, CoinDataHeight>, height: BlockHeight, reqs: Seq<Transaction>, done: ISet<PoolKey>, wl: spec_fn(PoolKey) -> int, wr: spec_fn(PoolKey) -> int, pools1: Map<PoolKey, PoolState>, c1: IMap<CoinID, CoinDataHeight>)
-    requires wds_done(pools0, c0, height, reqs, done, wl, wr, pools1, c1), forall|j: int| 0 <= j < reqs.len() ==> done.contains(swap_key(#[trigger] reqs[j]))
+    requires wds_done(pools0, c0, height, reqs, done, wl, wr, pools1, c1), forall|j: int| 0 <= j < reqs.len() ==> done.contains(swap_key(#[trigger] reqs[j])) || !c0.contains_key(cid(reqs[j], 1))
     ensures young(c0, c1, height)
 {
     assert forall|id: CoinID| #[trigger] c1.contains_key(id) implies (c0.contains_key(id) && c1[id] == c0[id]) || c1[id].height == height by {
         if exists|j: int| 0 <= j < reqs.len() && (id == cid(#[trigger] reqs[j], 0) || id == cid(reqs[j], 1)) {
-            let j = choose|j: int| 0 <= j < reqs.len() && (id == cid(#[trigger] reqs[j], 0) || id == cid(reqs[j], 1)); let tx = reqs[j]; assert(done.contains(swap_key(tx)));
+            let j = choose|j: int| 0 <= j < reqs.len() && (id == cid(#[trigger] reqs[j], 0) || id == cid(reqs[j], 1)); let tx = reqs[j];
+            if !done.contains(swap_key(tx)) { if id == cid(tx, 1) { assert(!c0.contains_key(id)); assert(wd_new(reqs, done, id));
+                let j2 = choose|j2: int| 0 <= j2 < reqs.len() && done.contains(swap_key(#[trigger] reqs[j2])) && id == cid(reqs[j2], 1);
+                broadcast use axiom_txhash_inj; assert(spec_txhash(reqs[j2]) == spec_txhash(tx)); assert(reqs[j2] == tx); } }
         } else if !c0.contains_key(id) { assert(wd_new(reqs, done, id)); let j = choose|j: int| 0 <= j < reqs.len() && done.contains(swap_key(#[trigger] reqs[j])) && id == cid(reqs[j], 1); assert(false); }
     }
 }
